@@ -115,8 +115,8 @@ func stressGet(id string, seed int64, sends int) (res c09Result) {
 		if stream != nil {
 			stream.Close()
 		}
-		ts.CloseClientConnections()
-		ts.Close()
+		closeClientConns(ts)
+		closeTS(ts)
 	}()
 	ctx := context.Background()
 	sid, err := peer.Handshake(ctx, url, nil)
@@ -185,8 +185,8 @@ func stressLegacy(id string, seed int64, calls int) (res c09Result) {
 		if stream != nil {
 			stream.Close()
 		}
-		ts.CloseClientConnections()
-		ts.Close()
+		closeClientConns(ts)
+		closeTS(ts)
 	}()
 	ctx := context.Background()
 	stream, err := peer.OpenSSE(ctx, http.MethodGet, ts.URL+"/sse", map[string]string{"Accept": "text/event-stream"}, nil)
